@@ -1810,6 +1810,41 @@ func generateScenarios(prop string, seed uint64, n int, adv bool) []*scenario {
 				sc.Features = append(sc.Features, "child-update-refused-422")
 			}
 			out = append(out, sc)
+		case prop == "C06" && i%10 == 9:
+			// a child that needs an update has begun terminating (held by a finalizer) since the cache was taken: the
+			// update built on the cached copy meets a conflict, and nothing may be written to the dying child after it
+			sc := g.basic("basic", i, s)
+			for tries := 0; tries < 40 && (len(sc.Hook.Children) == 0 || sc.Hook.PlainOwnerRef); tries++ {
+				sc = g.basic("basic", i, s)
+			}
+			for ki := range sc.Ctl.Kids {
+				sc.Ctl.Kids[ki].Method, sc.Ctl.Kids[ki].EmptyStrategy = []string{"InPlace", "InPlace", "Recreate"}[r.Intn(3)], false
+			}
+			sc.Warmup, sc.Setup, sc.Ctl.SSA = true, nil, false
+			h2 := sc.Hook
+			h2.Children = nil
+			for _, c := range sc.Hook.Children {
+				c2 := runtime.DeepCopyJSON(c)
+				if sp, ok := c2["spec"].(map[string]interface{}); ok {
+					sp["replicas"] = int64(5)
+				}
+				h2.Children = append(h2.Children, c2)
+			}
+			sc.Hook2 = &h2
+			var late []extOp
+			for _, ref := range sc.childRefs() {
+				ref.Op, ref.Data = "deleting", J{"finalizers": A{"example.com/hold"}}
+				late = append(late, ref)
+			}
+			sc.Rounds = []roundSpec{{LateOps: late}, {}}
+			sc.Features = []string{"child-terminating-after-cache", "hook-changes-mind"}
+			out = append(out, sc)
+		case prop == "C06" && i%5 == 3:
+			// parents being deleted (background, foreground, orphan cascades) whose finalize hook still manages
+			// the children: a child no longer desired goes with background propagation whatever the parent's cascade
+			sc := g.lifecycle(i, s)
+			sc.Ctl.Finalize = true
+			out = append(out, sc)
 		case prop == "C06" && i%5 == 2:
 			// two child kinds with the same kind name in different API groups, each with its own method
 			sc := g.basic("basic", i, s)
